@@ -76,7 +76,7 @@ func (ex *Exec) store(p Val, v Val) {
 		if ex.memHook != nil {
 			ex.memHook(p, true)
 		}
-		*p = copyVal(v)
+		assignInPlace(p, v)
 		return
 	case *SymPtr:
 		i := ex.concretize(p.Idx, "store index")
@@ -943,4 +943,27 @@ func growCap(old, needed int) int {
 		newcap += (newcap + 3*threshold) / 4
 	}
 	return newcap
+}
+
+// assignInPlace stores v into the cell p. Struct and array values are copied
+// element-wise into the existing storage so that pointers to fields/elements
+// taken earlier (FieldAddr, IndexAddr) stay valid, as in Go's memory model.
+func assignInPlace(p *Val, v Val) {
+	switch nv := v.(type) {
+	case StructV:
+		if old, ok := (*p).(StructV); ok && len(old) == len(nv) {
+			for i := range nv {
+				assignInPlace(&old[i], nv[i])
+			}
+			return
+		}
+	case ArrayV:
+		if old, ok := (*p).(ArrayV); ok && len(old) == len(nv) {
+			for i := range nv {
+				assignInPlace(&old[i], nv[i])
+			}
+			return
+		}
+	}
+	*p = copyVal(v)
 }
